@@ -83,6 +83,9 @@ struct Lifecycle {
     grid_age_at_start: u64,
     genuine_error: Option<i64>,
     recovery_uid: Option<u64>,
+    /// every earlier attempt of this hash in this lifetime was concluded by the plugin itself, without
+    /// injected faults, crashes or overlapping lifecycles: the set is one "with no earlier attempt" pending
+    hist_clean: bool,
 }
 
 #[derive(Default, Clone, Debug)]
@@ -93,6 +96,12 @@ struct HashTrack {
     paying: Option<(u64, Vec<usize>)>,
     attempts_seen: u32,
     pending_written_grid: Option<u64>,
+    /// this lifetime: a fault was injected on an RPC of the hash / a lifecycle opened while RPCs of an
+    /// earlier one were outstanding / lifecycles that ended / the record was Pending when the lifetime began
+    faulted_this_life: bool,
+    overlap_seen: bool,
+    closed_this_life: u32,
+    inherited_pending: Option<bool>,
 }
 
 pub struct Monitors {
@@ -122,6 +131,8 @@ pub struct Monitors {
     changed_after_list: bool,
     poll_outstanding: bool,
     poisoned: BTreeMap<[u8; 32], String>,
+    /// RPCs of a hash that have arrived and are not yet answered, in event order
+    outstanding: BTreeMap<[u8; 32], i32>,
     grid_at_restart: u64,
     todo_panics: u32,
     pub stale_heights: u32,
@@ -166,6 +177,7 @@ impl Monitors {
             changed_after_list: false,
             poll_outstanding: false,
             poisoned: BTreeMap::new(),
+            outstanding: BTreeMap::new(),
             grid_at_restart: 0,
             todo_panics: 0,
             stale_heights: 0,
@@ -189,6 +201,8 @@ impl Monitors {
         let carries = if h.raw_payload.is_none() {
             match &h.meta {
                 Meta::Normal | Meta::WithAmount(_) | Meta::InvoiceOnly => Some(build_invoice(scn.htlc_payment(h), InvKind::Normal)),
+                Meta::FlippedRecid => Some(build_invoice(scn.htlc_payment(h), InvKind::FlippedRecid)),
+                Meta::NonMinimalExpiry => Some(build_invoice(scn.htlc_payment(h), InvKind::NonMinimalExpiry)),
                 Meta::AltInvoice { amount } => Some(build_invoice(scn.htlc_payment(h), InvKind::Alt(*amount))),
                 _ => None,
             }
@@ -255,6 +269,7 @@ impl Monitors {
             let t_ans = answers[0].2;
             let track = self.tracks.entry(hash).or_default();
             if track.held.is_empty() && track.lc.open {
+                track.closed_this_life += 1;
                 let lc = std::mem::take(&mut track.lc);
                 self.close_lifecycle(s, scn, &hash, lc, &answers, t_ans);
             }
@@ -278,7 +293,7 @@ impl Monitors {
         let first_total = first_spec.total_msat.or(first_spec.forward_msat).unwrap_or(0);
         let first_fee_fails = !fee_sufficient_ref(cfg.base, cfg.ppm, first_total, amount);
         let first_expiry_fails = first_spec.cltv_rel < cfg.policy_delta as i64;
-        let fresh = matches!(lc.fetch_state, Some("Absent") | Some("Free"));
+        let fresh = matches!(lc.fetch_state, Some("Absent") | Some("Free")) || lc.hist_clean;
         if (first_fee_fails || first_expiry_fails) && fresh && cfg.mpp_timeout_s != 0 && !lc.tainted {
             self.stats.c12_clause += 1;
             let want = hex::encode(fee_failure_ref(cfg.base, cfg.ppm, cfg.policy_delta));
@@ -293,6 +308,9 @@ impl Monitors {
                     );
                 }
             }
+        }
+        if std::env::var("VERIF_DEBUG").is_ok() {
+            eprintln!("close_lifecycle set={:?} funded={funded} rejecting={} tainted={} pay={} fetch={:?}/{:?} hist_clean={} genuine={:?} t_ans={t_ans} fresh={fresh}", lc.set, lc.any_rejecting, lc.tainted, lc.pay_issued, lc.fetch_answered_ms, lc.fetch_state, lc.hist_clean, lc.genuine_error);
         }
         // ---- C11 / C06 timing: sets that never reach the total
         if !funded && !lc.any_rejecting && !lc.tainted && !lc.pay_issued && lc.fetch_answered_ms.is_some() && !self.read_fault_hashes.contains(hash) {
@@ -393,6 +411,7 @@ impl Monitors {
             Ev::LifetimeStart => {
                 self.stats.lifetimes += 1;
                 self.life = rec.life;
+                self.outstanding.clear();
                 self.told_height = 0;
                 self.height_reads_max = 0;
                 self.last_poll_answered_ms = None;
@@ -401,6 +420,10 @@ impl Monitors {
                     t.held.clear();
                     t.lc = Lifecycle::default();
                     t.paying = None;
+                    t.faulted_this_life = false;
+                    t.overlap_seen = false;
+                    t.closed_this_life = 0;
+                    t.inherited_pending = None;
                 }
                 self.mix(1);
             }
@@ -437,8 +460,20 @@ impl Monitors {
                     let stored = s.node.stored_state(&info.hash).0;
                     let open = self.tracks.get(&info.hash).map(|t| t.lc.open).unwrap_or(false);
                     if !open {
+                        // (counted from the event order: `s.pending` already contains what arrived later in this window)
+                        let rpcs_outstanding = self.outstanding.get(&info.hash).cloned().unwrap_or(0) > 0;
                         let t = self.tracks.entry(info.hash).or_default();
-                        t.lc = Lifecycle { open: true, first: Some(*h), started_ms: rec.t_ms, ..Default::default() };
+                        if t.inherited_pending.is_none() {
+                            t.inherited_pending = Some(stored == "Pending" && t.closed_this_life == 0);
+                        }
+                        if rpcs_outstanding {
+                            t.overlap_seen = true;
+                        }
+                        let hist_clean = t.inherited_pending == Some(false) && !t.faulted_this_life && !t.overlap_seen && t.closed_this_life >= 1;
+                        if std::env::var("VERIF_DEBUG").is_ok() {
+                            eprintln!("open lifecycle h={h} inherited={:?} faulted={} overlap={} closed={} stored={stored}", t.inherited_pending, t.faulted_this_life, t.overlap_seen, t.closed_this_life);
+                        }
+                        t.lc = Lifecycle { open: true, first: Some(*h), started_ms: rec.t_ms, hist_clean, ..Default::default() };
                         if let Some(w) = t.pending_written_grid {
                             t.lc.grid_age_at_start = self.grid_at_restart.saturating_sub(w);
                         }
@@ -644,6 +679,7 @@ impl Monitors {
                 });
                 let Some(hash) = hash else { return };
                 let hash = *hash;
+                *self.outstanding.entry(hash).or_default() += 1;
                 if method == "datastore" {
                     // first intent write of an attempt = payment initiated (C04 snapshot)
                     let is_state = params["key"].as_array().map(|k| k.last().and_then(|x| x.as_str()) == Some("state")).unwrap_or(false);
@@ -707,7 +743,11 @@ impl Monitors {
                     let sum: u128 = tr.iter().map(|(h, _)| scn.htlcs[*h].amount_msat as u128).sum();
                     let carrier = tr.iter().find(|(_, t)| t.0 == bolt11);
                     match carrier {
-                        None => self.v("C03", "pay_invoice_not_carried_by_held_htlcs", format!("pay bolt11 is not the invoice of any held HTLC of hash {} (held {:?})", hex::encode(&hash[..4]), held), json!({})),
+                        None => {
+                            let d = format!("pay bolt11 is not (byte for byte) the invoice of any held HTLC of hash {} (held {:?}): {}...", hex::encode(&hash[..4]), held, &bolt11[..bolt11.len().min(60)]);
+                            self.v("C03", "pay_invoice_not_carried_by_held_htlcs", d.clone(), json!({}));
+                            self.v("C10", "pay_invoice_not_carried_by_held_htlcs", d, json!({}));
+                        }
                         Some((_, (_, amount, pay))) => {
                             let a = *amount;
                             let need = a as u128 + cfg.base as u128 + (a as u128 * cfg.ppm as u128) / 1_000_000;
@@ -769,6 +809,9 @@ impl Monitors {
                 }
             }
             Ev::RpcAnswer { uid, method, hash, applied, ok, reply, fault } => {
+                if let Some(h) = hash {
+                    *self.outstanding.entry(*h).or_default() -= 1;
+                }
                 self.mix(40 + (*ok as u64) * 2 + (*applied as u64));
                 if *fault {
                     if method == "datastore" {
@@ -794,6 +837,7 @@ impl Monitors {
                         self.fault_ctx.insert(*h, d);
                         if let Some(t) = self.tracks.get_mut(h) {
                             t.lc.tainted = true;
+                            t.faulted_this_life = true;
                         }
                     }
                 }
@@ -1011,6 +1055,20 @@ impl Monitors {
                     format!("HTLC {h} ({:?}) still unanswered after the fair drain (pending RPCs: {:?}, panics: {})", scn.htlcs[h].meta, s.pending.iter().map(|r| r.method.clone()).collect::<Vec<_>>(), self.stats.panics),
                     json!({"injected_fault": ctx, "after_todo_panic_only": panicked}),
                 );
+            }
+        }
+        // ---- C11: an incomplete set (no rejection, no attempt live, no fault) must not stay held for ever
+        let cfg = scn.cfg.clone();
+        for (hash, t) in self.tracks.clone().iter() {
+            let lc = &t.lc;
+            if !lc.open || t.held.is_empty() || lc.any_rejecting || lc.tainted || lc.pay_issued || lc.genuine_error.is_some() || self.read_fault_hashes.contains(hash) {
+                continue;
+            }
+            let Some(first) = lc.first else { continue };
+            let Some((_, amount, _)) = self.info[first].tramp.clone() else { continue };
+            let funded = fee_sufficient_ref(cfg.base, cfg.ppm, lc.sum.min(u64::MAX as u128) as u64, amount);
+            if !funded && lc.fetch_answered_ms.is_some() && !Self::live(s, hash) {
+                self.v("C11", "incomplete_set_never_failed", format!("incomplete set {:?} (held {:?}) was never failed back although the drain waited several MPP timeouts", lc.set, t.held), json!({}));
             }
         }
         // ---- C05: at most one completed outgoing payment per invoice
